@@ -123,11 +123,28 @@ func genDefinition(r *vlib.Rng) genDef {
 		d.ref.Predicates = append(d.ref.Predicates, rp)
 	}
 	if np >= 2 && r.Intn(15) == 0 {
-		// duplicate topic BytesEq predicate: must be invalid
+		// duplicate topic BytesEq predicate: must be invalid, adjacent or not
 		b := r.Bytes(32)
-		for k := 0; k < 2; k++ {
+		first, second := 0, 1
+		if np >= 3 && r.Chance(2, 3) {
+			// another pinned topic in between
+			second = 2
+			c := r.Bytes(32)
+			d.repo.LogPredicates[1] = ss.LogPredicate{LogValueRef: ss.LogValueRef{Offset: 2}, ValuePredicate: ss.ValuePredicate{Op: ss.BytesEq, ByteArgs: [][]byte{c}}}
+			d.ref.Predicates[1] = refimpl.RefPredicate{Offset: 2, Op: 5, Bytes: c}
+		}
+		for _, k := range []int{first, second} {
 			d.repo.LogPredicates[k] = ss.LogPredicate{LogValueRef: ss.LogValueRef{Offset: 1}, ValuePredicate: ss.ValuePredicate{Op: ss.BytesEq, ByteArgs: [][]byte{b}}}
 			d.ref.Predicates[k] = refimpl.RefPredicate{Offset: 1, Op: 5, Bytes: b}
+		}
+	}
+	if np >= 1 && r.Intn(25) == 0 {
+		// a stray argument of the kind the operation does not use: must be invalid
+		k := r.Intn(np)
+		if d.repo.LogPredicates[k].ValuePredicate.Op == ss.BytesEq {
+			d.repo.LogPredicates[k].ValuePredicate.IntArgs = []*big.Int{big.NewInt(int64(r.Intn(9)))}
+		} else {
+			d.repo.LogPredicates[k].ValuePredicate.ByteArgs = [][]byte{r.Bytes(1 + r.Intn(32))}
 		}
 	}
 	return d
